@@ -17,7 +17,7 @@ META = dict(
     "residual identities (trained parameters of run 1 vs run 2) are put to z3",
     functions=["qucumber/__init__.py: set_random_seed", "qucumber/nn_states/*: sample, psi, rho, pi_grad, gradient methods, fit, _shuffle_data, save",
                "qucumber/rbm/*: every public method", "qucumber/observables/*: apply, statistics, statistics_from_samples", "qucumber/utils/{training_statistics,unitaries}.py"],
-    bounds=dict(quick="positive (2,2), complex (2,2), mixed (2,1,2); one pass over ~45 public operations per state type; training: 2 epochs, N=3, (pos,neg) batch sizes (2,None),(2,1),(3,2)",
+    bounds=dict(quick="positive (2,2), complex (2,2), mixed (2,1,2); one pass over ~45 public operations per state type; training: 2 epochs, N=3, (pos,neg) batch sizes (2,None),(2,1),(3,2); one interleaved sequence (space, sample with overwrite, space, sample, statistics) run twice per state type",
                 thorough="additionally (3,2) architectures and k up to 2"),
     outside=["bit-level determinism of torch's own kernels and generator (cannot be encoded); 'a different seed yields different draws' is a statement about torch's generator",
              "operations not in the list of the evidence"],
